@@ -55,6 +55,31 @@ def scenarios(tier):
                     "threads": {"T1": [MENU["M1"], MENU["R"]], "T2": [MENU["M2"]]}})
     for s in out:
         s["observer"] = True
+    out += line_level_scenarios(tier, out)
+    return out
+
+
+def line_level_scenarios(tier, base):
+    """Engine L: every two-thread scenario of this check again with ONE pre-emption at every source line of the package
+    (thorough: also at every bytecode for the same-document pairs), plus pairs on different pids, which share nothing
+    but the store instance."""
+    from .. import tscen
+    extra = [
+        {"name": "store_metadata(p1,v2)||store_metadata(p2,v1) from empty", "init": "empty", "formats": FORMATS,
+         "pids": ("p1", "p2"), "threads": {"T1": [("store_meta", "p1", None, "v2")], "T2": [("store_meta", "p2", None, "v1")]}},
+        {"name": "retrieve_metadata(p1)||store_metadata(p2,f2,v2) from meta", "init": "meta", "formats": FORMATS,
+         "pids": ("p1", "p2"), "threads": {"T1": [("retrieve_meta", "p1", None)], "T2": [("store_meta", "p2", "f2", "v2")]}},
+        {"name": "delete_metadata(p1)||store_metadata(p2,v1) from meta2", "init": "meta2", "formats": FORMATS,
+         "pids": ("p1", "p2"), "threads": {"T1": [("delete_meta", "p1", None)], "T2": [("store_meta", "p2", None, "v1")]}},
+    ]
+    out = []
+    for sp in list(base) + extra:
+        if len(sp["threads"]) != 2 or any(len(v) != 1 for v in sp["threads"].values()):
+            continue
+        sp = {k: v for k, v in sp.items() if k != "observer"}
+        out += tscen.line_level(sp, "line", 1 if tier == "quick" else 2)
+        if tier == "thorough" and "present" in sp["name"]:
+            out += tscen.line_level(sp, "opcode", 4)
     return out
 
 
@@ -65,6 +90,8 @@ def main(tier):
         "the reader reads the returned stream to the end inside the controlled thread, so every raw read is a scheduling point",
         "oracle: per-call outcomes (reader: exact bytes or not-found) and final documents equal those of some sequential order",
         "at every scheduling point each metadata document on disk must be a complete supplied version (I9)",
+        "line level (engine L): every execution of two calls with at most ONE pre-emption, placed at every source line of "
+        "the package and every visible operation of either thread",
     ]
     return finish_t(rep, results)
 
